@@ -40,7 +40,7 @@ var handWritten = []textCase{
 	{Tokens: "( function f ( ) { } ( ) ) ; a ;", Accept: true},
 	{Tokens: "do ; while ( a ) ( b ) ;", Accept: true},
 	{Tokens: "x = [ a , ] ; y = { a : 1 , } ; z = [ , , a , , ]", Accept: true},
-	{Tokens: "x = { get : 1 , set : 2 , get get ( ) { } , set set ( v ) { } , if : 3 , 1.0 : 4 , 'k' : 5 }", Accept: true},
+	{Tokens: "x = { get : 1 , set : 2 , get a ( ) { } , set a ( v ) { } , get set2 ( ) { } , if : 3 , 1.0 : 4 , 'k' : 5 }", Accept: true},
 	{Tokens: "for ( var i = 0 in o ) ; for ( ( a in b ) ; ; ) ; for ( ; ; ) { }", Accept: true},
 	{Tokens: "L : M : while ( a ) { continue L ; } N : { break N ; }", Accept: true},
 	{Tokens: "new new a ( ) ( ) . b [ c ] ( ) ; new a . b ; new ( a ( ) ) ;", Accept: true},
